@@ -28,7 +28,7 @@ WATCHDOG_S = {"quick": 900, "thorough": 7200}
 
 
 def gen_cases(tier, seed):
-    return S.gen(tier, seed, "C01", 8000, 200000)
+    return S.gen(tier, seed, "C01", 6000, 200000)
 
 
 def check_result(L, res, dbg):
